@@ -437,6 +437,26 @@ def run(S, tier, rep):
     freshness(S, rep, "C08.g")
     load_buffers_hold_reals(S, rep)
     rep.require_min("C08.h", 4)
+    # "fluid + body balance": the force density must land in the array the flow solver reads (the caller's forcing field), not in
+    # a private copy of it; decided by C10's effect classification of the interaction instance (C10.e) and its alias rule (C10.f)
+    from ..report import Report as _R
+    from .c10 import check_instance
+    tmp = _R("C08", "other")
+    broken_forwarding = any(not o["ok"] for o in rep.obligations if o["rule"] == "C08.f")
+    for dim_ in (2, 3):
+        for reset_ in (True, False):
+            try:
+                check_instance(S, dim_, reset_, tmp)
+            except Unsupported:
+                if not broken_forwarding:
+                    raise
+    for o in tmp.obligations:
+        if o["rule"] == "C10.e" or (o["rule"] == "C10.f" and "view of the caller" in o["instance"]):
+            o = dict(o, rule="C08.target")
+            if "key" in o:
+                o["key"] = o["key"].replace("C10.", "C08.target.")
+            rep.obligations.append(o)
+    rep.require_min("C08.target", 8)
     rep.require_min("C08.g", 40)
     rep.require_min("C08.f", 2)
     rep.require_min("C08.a", 12)
